@@ -64,6 +64,8 @@ def run_obligation(task):
         patch_z3()
         stepbudget.start_coverage()
         mod = importlib.import_module(task["module"])
+        rt.OPEN_TAGS = set(task.get("open_tags", []))
+        rt.KNOWN_HITS = set()
         if hasattr(mod, "configure"):
             mod.configure(ob.get("P", {}))
         if res["kind"] == "direct":
@@ -122,6 +124,7 @@ def run_obligation(task):
                 res["detail"] = ",".join(states) + " " + "; ".join(msgs)[:300]
             rt.EXCLUDES = []
         res["functions"] = sorted(stepbudget.covered)
+        res["known_tags"] = sorted(rt.KNOWN_HITS)
     except BaseException as e:  # noqa: BLE001
         import traceback
         res["status"] = "harness_error"
